@@ -63,9 +63,7 @@ impl RunResult {
         }
     }
     pub fn count(&mut self, k: &str, n: u64) {
-        if n > 0 {
-            *self.counters.entry(k.to_string()).or_default() += n;
-        }
+        *self.counters.entry(k.to_string()).or_default() += n;
     }
     pub fn violation(mut self, class: &str, msg: String) -> Self {
         self.verdict = Verdict::Violation { class: class.to_string(), msg };
@@ -119,6 +117,12 @@ pub trait Engine: Sync {
     fn execute(&self, case: &Value) -> RunResult;
     /// simpler variants of a failing case, most aggressive first
     fn shrink(&self, case: &Value) -> Vec<Value>;
+    /// Turns what a failing run recorded (e.g. scheduler decisions) into an explicit part of the
+    /// case, so that minimisation and replay work on the materialised execution.
+    /// `final_` = produce the form stored in the replay file.
+    fn concretise(&self, case: &Value, _r: &RunResult, _final: bool) -> Value {
+        case.clone()
+    }
     /// a worker died while executing a case
     fn classify_crash(&self, how: &str, stderr_tail: &str) -> Verdict {
         Verdict::Violation {
@@ -562,7 +566,7 @@ pub fn minimise(
             });
             calls += batch.len() as u64;
             if let Some(j) = results.iter().position(|r| class_of(r) == Some(class)) {
-                cur = batch[j].clone();
+                cur = e.concretise(batch[j], &results[j], false);
                 continue 'outer;
             }
             k += batch.len();
@@ -659,12 +663,15 @@ pub fn check(e: &'static dyn Engine, ctx: &Ctx) -> Outcome {
             return Outcome { exit: 2 };
         };
         // (b) minimise
+        let start = e.concretise(&case, &confirm, false);
         let (small, calls) = if std::env::var("VERIF_NO_MINIMISE").is_ok() {
-            (case.clone(), 0)
+            (start, 0)
         } else {
-            minimise(e, ctx, &v.profile, case.clone(), &cclass)
+            minimise(e, ctx, &v.profile, start, &cclass)
         };
         let last = run_isolated(e, ctx, &v.profile, &small, "final");
+        let small = e.concretise(&small, &last, true);
+        let last = run_isolated(e, ctx, &v.profile, &small, "final2");
         let (fclass, fmsg) = match &last.verdict {
             Verdict::Violation { class, msg } => (class.clone(), msg.clone()),
             _ => (cclass.clone(), v.msg.clone()),
